@@ -391,7 +391,7 @@ pub fn evaluate(c: &Case) -> Result<bool, String> {
 pub fn run(ctx: &mut Ctx) {
     ctx.rule = "cases are (decoded map from the accepted-mode generator, 1..4 edits). Edits set a field to a value the format can represent: metadata text = any string without line breaks / surrounding whitespace (pool rich in ':', '//', ',', quotes, brackets, header-like and version-like text, non-ASCII, plus random scalars); file names (no backslash, '//', for the background no comma / edge quotes); ints within +-(2^31-1) (ids and countdown offset > 0); integral lead-in; finite f32/f64 within the limits (slider multiplier in [0.4,3.6], tick rate in [0.5,8]); flags, mode, countdown; bookmarks; combo / named colours; breaks with start <= end. Oracle: R=decode(encode(edit(M1))) shows exactly the edited value for every edited field, and every other C02-compared field equals R0=decode(encode(M1)) (dependents exempted by a fixed table: mode -> scroll speed / velocity clamp / curves / default banks / special style; slider multiplier -> velocity and therefore end times; breaks -> new-combo flags). Non-trivial = at least one edit changes a value; distinct by hash(text, edits).".into();
     crate::props::replay_regress_generic(ctx, replay);
-    let cases = ctx.tier.pick(300_000u64, 3_000_000u64);
+    let cases = ctx.tier.pick(600_000u64, 5_000_000u64);
     ctx.pbt("c03-random", cases, 2500, |t, st| {
         let c = gen_case(t);
         st.eval();
